@@ -179,6 +179,7 @@ cfg_not_miri! {
                 A: Application,
             {
                 inner: CQueue<A::EventSet>,
+                start_time: SimTime,
             }
 
             impl<A> FutureEventSet<A>
@@ -201,6 +202,7 @@ cfg_not_miri! {
                 pub(crate) fn new_with(options: &Builder) -> Self {
                     Self {
                         inner: CQueue::new(options.cqueue_num_buckets, options.cqueue_bucket_timespan),
+                        start_time: options.start_time,
                     }
                 }
 
@@ -219,6 +221,12 @@ cfg_not_miri! {
                     time: SimTime,
                     event: impl Into<A::EventSet>,
                 ) {
+                    // The calender queue only knows the time of the last fetched event,
+                    // which is zero until the first event was fetched.
+                    assert!(
+                        time >= self.start_time,
+                        "Sorry we cannot timetravel yet"
+                    );
                     self.inner.add(*time, event.into());
                 }
             }
